@@ -142,6 +142,16 @@ def run(tier, seed, only=None):
         out.append(o7(tier))
     if not only or 'O8' in only:
         out.append(o8(tier))
+    if not only or 'O10' in only:
+        from props import C02
+        r10 = C02.o3(tier); r10.oid = 'O10'
+        r10.title = 'own echo (shared with C02-O3): confirming an own message changes its state only -- its sort keys (created_at, processed_at, id) are not re-stamped, so the listing order and the pointer stay in agreement'
+        out.append(r10)
+    if not only or 'O9' in only:
+        from props import C09
+        r9 = C09.sqlite_columns(tier); r9.oid = 'O9'
+        r9.title = 'SQLite (shared with C09-O2): a rollback restores last_message_id / _at / _processed_at with the rest of the group record, so the pointer never designates a message the rollback invalidates'
+        out.append(r9)
     if not only or 'O3' in only:
         from props import memobs
         out.append(memobs.messages_listing(tier, 'O3', 'O3'))
